@@ -1199,7 +1199,8 @@ func (fc *funcContext) translateConversion(expr ast.Expr, desiredType types.Type
 			switch et := exprType.Underlying().(type) {
 			case *types.Basic:
 				if is64Bit(et) {
-					value = fc.formatExpr("%s.$low", value)
+					// The whole value decides: with a non-zero high word it is outside the Unicode range (U+FFFD).
+					return fc.formatExpr("$encodeRune(%1h === 0 ? %1l : -1)", expr)
 				}
 				if isNumeric(et) {
 					return fc.formatExpr("$encodeRune(%s)", value)
